@@ -26,6 +26,7 @@ EXTRA_CFGS = {
     "D": ["C05", "C06", "C07", "C08", "C09", "C10", "C11", "C12", "C13", "C15", "C16", "C18"],
 }
 SEEDED = os.path.join(core.VERIF, "seeded")
+BENIGN = os.path.join(core.VERIF, "benign")
 
 
 def run_rules(pid, tier, seed, force_cfg=None):
@@ -34,6 +35,13 @@ def run_rules(pid, tier, seed, force_cfg=None):
     mod = importlib.import_module("rules.%s" % pid.lower())
     mod.run(ctx)
     return ctx
+
+
+def factsmod_file(ctx, key):
+    for f in ctx.configs.values():
+        if f is not None and key in f.fns:
+            return f.fns[key].file
+    return None
 
 
 def merge(base, other, cfg):
@@ -50,16 +58,29 @@ def merge(base, other, cfg):
         "evaluations": len(other.instances), "distinct_nontrivial": len(other.nontrivial), "violations": len(other.violations)}
 
 
-def self_test(pid):
-    """Apply each stored breaking change to a scratch copy of the current tree and run the quick rules on it."""
+def patch_files(patch):
+    return set(re.findall(r"^\+\+\+ b/(\S+)", open(patch).read(), flags=re.M))
+
+
+def self_test(pid, files=None):
+    """Apply each stored breaking change (must be reported) and each stored behaviour-preserving refactoring that touches a
+    file this check analyses (must stay quiet) to a scratch copy of the current tree and run the quick rules on it."""
     out = []
-    seeds = sorted(d for d in os.listdir(SEEDED) if d.startswith(pid + "-")) if os.path.isdir(SEEDED) else []
-    if not seeds:
+    jobs = []
+    for d in (sorted(os.listdir(SEEDED)) if os.path.isdir(SEEDED) else []):
+        if d.startswith(pid + "-") and os.path.exists(os.path.join(SEEDED, d, "patch.diff")):
+            jobs.append((d, os.path.join(SEEDED, d, "patch.diff"), True))
+    for d in (sorted(os.listdir(BENIGN)) if os.path.isdir(BENIGN) else []):
+        pth = os.path.join(BENIGN, d, "patch.diff")
+        if os.path.exists(pth) and files and (patch_files(pth) & files):
+            jobs.append(("benign/" + d, pth, False))
+    if not jobs:
         return out
     tmp = tempfile.mkdtemp(prefix="fbr-selftest-")
     try:
-        for sd in seeds:
-            patch = os.path.join(SEEDED, sd, "patch.diff")
+        for (sd, patch, breaking) in jobs:
+            name = sd
+            sd = sd.replace("/", "_")
             if not os.path.exists(patch):
                 continue
             t0 = time.time()
@@ -67,7 +88,7 @@ def self_test(pid):
             subprocess.check_call(["rsync", "-a", "--exclude", "target", "--exclude", ".git", factsmod.REPO + "/", work + "/"])
             p = subprocess.run(["git", "apply", "--whitespace=nowarn", patch], cwd=work, stdout=subprocess.PIPE, stderr=subprocess.STDOUT, text=True)
             if p.returncode != 0:
-                out.append({"seed": sd, "applied": False, "note": "does not apply to the current tree (tree changed since the seed was made)"})
+                out.append({"seed": name, "applied": False, "note": "does not apply to the current tree (tree changed since it was made)"})
                 shutil.rmtree(work, ignore_errors=True)
                 continue
             env = dict(os.environ)
@@ -78,7 +99,8 @@ def self_test(pid):
             keys = sorted(set(re.findall(r"\[(%s/[^\]]+)\]" % pid, "\n".join(l for l in q.stdout.splitlines() if l.startswith("  ")))))
             build = [k for k in keys if "/build/" in k]
             real = [k for k in keys if "/build/" not in k]
-            rec = {"seed": sd, "applied": True, "detected": bool(real) and q.returncode == 1, "reported": real[:6], "wall_s": round(time.time() - t0, 1)}
+            rec = {"seed": name, "applied": True, "expected": "reported" if breaking else "quiet",
+                   "detected": bool(real) and q.returncode == 1, "reported": real[:6], "wall_s": round(time.time() - t0, 1)}
             if build:
                 rec["build_failed"] = build
                 if not real:
@@ -120,12 +142,16 @@ def main():
             if pid in EXTRA_CFGS[cfg]:
                 other = run_rules(pid, tier, seed, force_cfg=cfg)
                 merge(ctx, other, cfg)
-        st = self_test(pid)
-        ctx.self_test = {"what": "each stored property-breaking change applied to a scratch copy of the current tree; the quick rules must report it",
+        files = {factsmod_file(ctx, k) for k in ctx.functions}
+        st = self_test(pid, files - {None})
+        ctx.self_test = {"what": "each stored property-breaking change (must be reported) and each stored behaviour-preserving refactoring touching "
+                                 "an analysed file (must stay quiet), applied to a scratch copy of the current tree and checked with the quick rules",
                          "results": st}
         for r in st:
-            if r.get("applied") and r.get("detected") is False:
+            if r.get("applied") and r.get("expected") == "reported" and r.get("detected") is False:
                 print("SELFTEST-MISSED: property=%s %s is not reported by the rules" % (pid, r["seed"]))
+            if r.get("applied") and r.get("expected") == "quiet" and r.get("detected"):
+                print("SELFTEST-FALSE-ALARM: property=%s %s is reported: %s" % (pid, r["seed"], r.get("reported")))
     rc = ctx.finish()
     if replay:
         want = json.load(open(replay)).get("key")
